@@ -43,7 +43,7 @@ SRC = "esutil/htm/htmc.cc"
 
 # rules that keep their verdict however the code is laid out (decided by term equality, effect analysis or dominance over
 # resolved calls); every other rule of this check is a template rule (vcheck.core.Check.obt)
-SEMANTIC = ('R13.1::lookup_id::ra-read-through', 'R13.1::lookup_id::dec-read-through', 'R13.2::HTM.intersect::flag-mapping', 'R13.3::cbincount::lower-edge-guard-on-untruncated-value', 'R13.3::cbincount::upper-bin-guard', 'R13.3::cbincount::per-point-value', 'R13.4', 'R13.5', 'R13.6', 'R13.7')
+SEMANTIC = ('R13.1::lookup_id::ra-read-through', 'R13.1::lookup_id::dec-read-through', 'R13.1::HTM.lookup_id::output-int64-same-size', 'R13.1::HTM.lookup_id::size-check', 'R13.2::HTM.intersect::flag-mapping', 'R13.3::cbincount::lower-edge-guard-on-untruncated-value', 'R13.3::cbincount::upper-bin-guard', 'R13.3::cbincount::per-point-value', 'R13.4', 'R13.5', 'R13.6', 'R13.7')
 
 
 def run(chk):
@@ -196,6 +196,33 @@ def _emptiness(test, lab, names):
     return False
 
 
+def _reaches_nonempty(view, a, b, avoiding, names):
+    """is there a path a ->+ b that avoids the given nodes and takes no branch outcome that says <name>.size is 0 (on such a path
+    the array may have elements)"""
+    avoid = {x.id for x in avoiding}
+    g = view.g
+    seen = set()
+    todo = [a.id]
+    first = True
+    while todo:
+        i = todo.pop()
+        if not first and (i in seen or i in avoid or i not in view.reach):
+            continue
+        if not first and i == b.id:
+            return True
+        if not first:
+            seen.add(i)
+        first = False
+        n = view.cfg.node(i)
+        t = getattr(getattr(n, "ast", None), "test", None)
+        for j in g.successors(i):
+            labs = set(g[i][j]["labels"]) - {"back"}
+            if n.kind == "branch" and isinstance(t, ast.AST) and labs and all(_emptiness(t, lab, names) for lab in labs):
+                continue
+            todo.append(j)
+    return False
+
+
 def lookup_output_rule(fi, size_checked=False):
     """every value HTM.lookup_id returns is a new int64 array of ra.size elements (np.zeros / np.empty / np.full(..., dtype int64)) that was
     handed to the extension's lookup_id as (ra, dec, out) on the way - except on a path on which ra.size is known to be 0 (a fast path
@@ -243,7 +270,9 @@ def lookup_output_rule(fi, size_checked=False):
         else:
             size = alloc_of(v) if v is not None else None
         if size is None:
-            verdicts.append(None if v is not None and not isinstance(v, ast.Constant) else False)
+            e_ = dn.ast.value if dn is not None else v
+            known_alloc = isinstance(e_, ast.Call) and call_name(e_) in ("zeros", "empty", "ones") and (kwarg(e_, "dtype") is None or isinstance(kwarg(e_, "dtype"), ast.Constant))
+            verdicts.append(False if (v is None or isinstance(v, ast.Constant) or known_alloc) else None)
             notes.append("line %s: the value returned is not recognised as a new int64 array" % getattr(r.ast, "lineno", "?"))
             continue
         sized = norm(size) in ("ra.size", "len(ra)") or (checked and norm(size) in ("dec.size", "len(dec)")) or (empty and const_value(size) == 0)
@@ -254,18 +283,13 @@ def lookup_output_rule(fi, size_checked=False):
         if empty:
             verdicts.append(True)
             continue
-        # the extension call fills this very array on every path to the return
-        filled = False
-        for cn, c in calls:
-            a = [norm(x) for x in c.args]
-            if dn is not None and len(a) == 3 and a[:2] == ["ra", "dec"] and a[2] == v.id and view.dominates(cn, r) \
-                    and RIN.get(cn.id, {}).get(v.id, set()) == {dn.id}:
-                filled = True
-        if not filled:
-            wrong = [norm(c)[:60] for cn, c in calls if view.dominates(cn, r) and len(c.args) == 3 and [norm(x) for x in c.args][:2] != ["ra", "dec"]]
-            verdicts.append(False if (wrong or not calls) else None)
-            notes.append("line %s: the array returned is not filled by lookup_id(ra, dec, <that array>) on every path%s"
-                         % (getattr(r.ast, "lineno", "?"), "" if not wrong else " (found %s)" % wrong))
+        # the extension call fills this very array on every path from its allocation to the return
+        good = [cn for cn, c in calls if dn is not None and len(c.args) == 3 and [norm(x) for x in c.args] == ["ra", "dec", v.id]]
+        if dn is None or _reaches_nonempty(view, dn, r, good, ("ra", "dec") if checked else ("ra",)):
+            wrong = [norm(c)[:60] for cn, c in calls if cn not in good]
+            verdicts.append(False)
+            notes.append("line %s: the array returned can reach the return without having been filled by lookup_id(ra, dec, <that array>) although ra.size may be "
+                         "non-zero there%s" % (getattr(r.ast, "lineno", "?"), "" if not wrong else " (calls found: %s)" % wrong))
             continue
         verdicts.append(True)
     ok = False if False in verdicts else (None if None in verdicts else True)
